@@ -181,6 +181,21 @@ class Engine(ExecMixin, CallMixin, EvalMixin):
             return Loc(key, (ref,), d['elem'], arrlen=d['len'])
         return Loc(key, (ref,), ft)
 
+    def bound_fields(self):
+        if getattr(self, '_bound_fields', None) is not None: return self._bound_fields
+        out = {}
+        for props, tf, fn, via, makers, src in self.c.binds:
+            tn, fnm = tf.rsplit('.', 1)
+            full = [t for t in self.p.types if self.match_type(t, tn) and self.p.desc(t).get('kind') == 'named']
+            g = self.find_fn(fn)
+            if not full or g is None: raise Unsupported('%s: bad bind declaration' % src)
+            off = 0
+            if via:
+                f = self.p.field(full[0], via); off = f.get('offset') or 0
+            out[self.skey(full[0]) + '.' + fnm] = (g.name, off)
+        self._bound_fields = out
+        return out
+
     def load_loc(self, st, loc, facts=True):
         t = loc.t; k = self.K(t)
         if loc.arrlen is not None:
@@ -195,6 +210,11 @@ class Engine(ExecMixin, CallMixin, EvalMixin):
             v = IfaceV(st.rd(loc.key + '#tag', loc.idx), st.rd(loc.key + '#val', loc.idx))
         elif k == 'func':
             v = FuncV(st.rd(loc.key, loc.idx), origin=loc.key, t=t)
+            bf = self.bound_fields().get(loc.key)
+            if bf is not None:
+                # `bind` declaration: the field always holds the method value fn bound to its own struct (checked by the @owned scan)
+                st.assume(v.id != 0)
+                return FuncV(v.id, bf[0] + '$bound', [loc.idx[0] + bf[1] if bf[1] else loc.idx[0]], loc.key, t)
             if z3.is_int_value(z3.simplify(v.id)) and z3.simplify(v.id).as_long() in st.closures:
                 c = st.closures[z3.simplify(v.id).as_long()]
                 v = FuncV(v.id, c.name, c.bind, loc.key, t)
@@ -340,7 +360,7 @@ class Engine(ExecMixin, CallMixin, EvalMixin):
         if op in ('Call', 'Go', 'Defer'):
             if 'invoke' in ins: return ('Call', 'invoke.' + ins['invoke'])
             c = ins['callee']
-            return ('Call', self.shortfn(c.get('name', '?')) if c['k'] in ('func', 'builtin') else 'dyn')
+            return ('Call', self.shortfn(c.get('name', '?')) if c['k'] in ('func', 'builtin') else ins.get('dynname', 'dyn'))
         if op == 'UnOp': return ('UnOp', ins['unop'])
         if op == 'BinOp': return ('BinOp', ins['binop'])
         return (op, '')
